@@ -5,7 +5,7 @@ from __future__ import annotations
 from ..report import Cx, Ob, describe, obligation
 from ..rules import CONV, component, flag_values, other_kind_call, self_call, where
 from ..summ import describe_path
-from ..terms import is_const, op, show, subterms
+from ..terms import callee_name, is_const, op, show, subterms
 from .c01 import curie_join_check, format_curie_check, is_uri_check
 from .c02 import _flags_forwarded
 
@@ -237,6 +237,26 @@ def d4(cx: Cx, ob: Ob) -> None:
                 ob.violate(fn.qualname, fn.where, f"{name} does not pass strict=True", detail="strict")
             if is_const(kw.get("passthrough"), True):
                 ob.violate(fn.qualname, fn.where, f"{name} passes passthrough=True", detail="passthrough")
+        # "equal the strict=True calls" includes how they fail: the wrapper raises nothing of its own (a handler
+        # that re-raises what it caught, unchanged, adds nothing)
+        for t, ctx in s.raises():
+            if t is None or op(t) in ("reraise",) or is_const(t, None):
+                continue
+            cls_ = t[1][1].rsplit(".", 1)[-1] if op(t) == "call" and op(t[1]) in ("cls", "builtin", "ext") else show(t)[:30]
+            if op(t) == "reraise":
+                continue
+            caught = [g.a for g in ctx.path.events if g.kind == "except"]
+            if caught and isinstance(caught[-1], tuple) and any(isinstance(c_, str) and (cls_ == c_ or cx.model.is_subclass(cls_, c_)) for c_ in caught[-1]):
+                # the same class the strict call raised, with another message
+                ob.site(f"{where(fn, ctx.path.out[2])} {fn.qualname}", f"re-raises {cls_} with its own message")
+                continue
+            ob.violate(
+                fn.qualname,
+                where(fn, ctx.path.out[2]),
+                f"{name} raises {cls_} of its own on some inputs: self.{target}(<argument>, strict=True) raises the library's {target.capitalize()[:-1] if False else ''}conversion error there, so the wrapper and the strict call no longer agree (callers that catch the documented ValueError subclass miss it)",
+                witness=f"{name}(<a string of the other kind the converter knows>): TypeError vs {'CompressionError' if target == 'compress' else 'ExpansionError'}",
+                detail=f"wrapper-raises:{cls_}",
+            )
     format_curie_check(cx, ob)
 
 
